@@ -96,6 +96,38 @@ theorem allValid_map_evaluateWith (f : Nat → O) (p : List (Ind O)) : AllValid 
   obtain ⟨j, _, rfl⟩ := List.mem_map.mp hi
   exact valid_evaluateWith f j
 
+theorem zipWith_cloneFrom_mem (p src : List (Ind O)) : ∀ i ∈ List.zipWith Ind.cloneFrom p src, i ∈ src := by
+  induction p generalizing src with
+  | nil => simp
+  | cons x xs ih =>
+    cases src with
+    | nil => simp
+    | cons y ys =>
+      intro i hi
+      simp only [List.zipWith_cons_cons, List.mem_cons] at hi ⊢
+      rcases hi with rfl | hi
+      · left; cases y; rfl
+      · right; exact ih ys i hi
+
+/-- `clone_from` over a whole `Vec` is assignment. -/
+theorem vecCloneFrom_eq (p src : List (Ind O)) : vecCloneFrom p src = src := by
+  unfold vecCloneFrom
+  induction p generalizing src with
+  | nil => simp; induction src with
+    | nil => rfl
+    | cons y ys ih => simp [Ind.clone] at ih ⊢; exact ih
+  | cons x xs ih =>
+    cases src with
+    | nil => simp
+    | cons y ys =>
+      simp only [List.zipWith_cons_cons, List.length_cons, List.drop_succ_cons, List.cons_append]
+      rw [ih ys]
+      cases y; rfl
+
+theorem allValid_zipWith_cloneFrom (f : Nat → O) (p src : List (Ind O)) (h : AllValid f src) :
+    AllValid f (List.zipWith Ind.cloneFrom p src) :=
+  fun i hi => h i (zipWith_cloneFrom_mem p src i hi)
+
 theorem intoSingle_mem (p : List (Ind O)) (i : Ind O) (h : intoSingle p = .ok i) : i ∈ p := by
   match p, h with
   | [x], h => simp [intoSingle] at h; simp [h]
